@@ -423,7 +423,7 @@ def negative_controls(wd, traces):
             cand = (run, evs, where)
             break
     if cand is None:
-        raise ToolError("negative controls: no recorded run with two simultaneous owners")
+        return None
     run, evs, where = cand
     results = {}
 
@@ -530,7 +530,9 @@ def check_c19(tier):
     log("[C19] %d events validated: %d runs accepted, %d rejected, %d contract violations (%.0fs)"
         % (nev, len(accepted), len(rejected), len(viols), time.time() - t0))
     acc_set = set(accepted)
-    neg = negative_controls(wd, [t for t in traces if t[0] in acc_set][:200]) if accepted else None
+    neg = negative_controls(wd, [t for t in traces if t[0] in acc_set][:300]) if accepted else None
+    if neg is None and not viols and not rejected and not crashes:
+        raise ToolError("negative controls: no accepted recorded run with two simultaneous owners to corrupt")
     log("[C19] negative controls done (%.0fs)" % (time.time() - t0))
     trace_of = dict(traces)
     # ---- classify
